@@ -145,3 +145,32 @@ Proof.
     intros H x Hx. destruct (IH _ _ _ H x Hx) as [[<-|Hin]|Hg]; auto.
     right. now rewrite (lm_get_name _ _ _ E).
 Qed.
+
+(* ------------------------------------------------------------------ same static part and same state *)
+Definition lsim_st (a b : layer) : Prop := lsim a b /\ l_state a = l_state b.
+Definition msim_st (m m' : lmap) : Prop := Forall2 lsim_st m m'.
+
+Lemma lsim_st_refl a : lsim_st a a.
+Proof. split; [apply lsim_refl|reflexivity]. Qed.
+Lemma lsim_st_trans a b c : lsim_st a b -> lsim_st b c -> lsim_st a c.
+Proof. intros [H1 H2] [G1 G2]. split; [eapply lsim_trans; eauto|congruence]. Qed.
+Lemma msim_st_refl m : msim_st m m.
+Proof. induction m; constructor; auto using lsim_st_refl. Qed.
+Lemma msim_st_trans a b c : msim_st a b -> msim_st b c -> msim_st a c.
+Proof.
+  intros H. revert c. induction H as [|x y a b Hxy _ IH]; intros c Hc; inversion Hc; subst; constructor.
+  - eapply lsim_st_trans; eauto.
+  - now apply IH.
+Qed.
+Lemma msim_st_msim m m' : msim_st m m' -> msim m m'.
+Proof. induction 1 as [|x y a b [H _] _ IH]; constructor; auto. Qed.
+Lemma msim_st_map_overlain (g : layer -> bool) m : msim_st m (map (fun l => set_overlain l (g l)) m).
+Proof. induction m; cbn [map]; constructor; auto. split; [apply lsim_set_overlain|reflexivity]. Qed.
+
+Lemma msim_st_get_some m m' n a : msim_st m m' -> lm_get m n = Some a ->
+  exists b, lm_get m' n = Some b /\ lsim_st a b.
+Proof.
+  induction 1 as [|x y r r' Hxy _ IH]; cbn [lm_get]; [discriminate|].
+  destruct Hxy as [(H1 & Hrest) Hst]. rewrite <- H1. destruct (beq (l_name x) n); [|exact IH].
+  intros H. injection H as <-. exists y. split; [reflexivity|]. split; [split; assumption|exact Hst].
+Qed.
